@@ -7,6 +7,8 @@ tensor name (p, p[1], ...) is compared with the model's.
 
 from __future__ import annotations
 
+import copy
+
 from harness import ctxrun
 from harness import gen_ctx as GC
 from harness.common import ImplWorker, Model, Report, rng_for, depth
@@ -36,9 +38,41 @@ def run(tier: str, seed: int, rep: Report, model: Model) -> dict:
         else:
             p = GC.perturb(rnd, base)
             cases.append(p[0] if p else base)
+    # a tuple of another length than its hint: some annotated position has no value, or some value has no position - such a
+    # call must not simply be accepted (today: ValueError from zip(strict=True))
+    nmis = 0
+    mismatch_ids = set()
+    for _ in range(depth(tier, 150, 3000)):
+        base = GC.gen_case(rnd, tuples=0.9, plain=0.05, optionals=0.0, with_ret=0.3, with_provider=0.0)
+        tp = [p for p in base["params"] if p["hint"]["k"] == "tuple" and isinstance(base["args"].get(p["name"]), dict) and base["args"][p["name"]].get("k") == "tup"
+              and any(e["k"] != "plain" for e in p["hint"]["elts"])]   # a tuple hint without any annotated element is none of dltype's business
+        if not tp:
+            continue
+        p = rnd.choice(tp)
+        c = copy.deepcopy(base)
+        elts = c["args"][p["name"]]["elts"]
+        if rnd.random() < 0.5 and len(elts) > 1:
+            elts.pop(rnd.randrange(len(elts)))
+        else:
+            elts.insert(rnd.randrange(len(elts) + 1), copy.deepcopy(rnd.choice(elts)))
+        c["length_mismatch"] = True
+        mismatch_ids.add(id(c))
+        cases.append(c)
+        nmis += 1
+    rep.streams["tuple_length_mismatch"] = nmis
     worker = ImplWorker("harness.ctxrun")
     try:
         for case, im, mo, raw in ctxrun.run_cases(cases, model, worker):
+            if case.get("length_mismatch"):
+                b = ctxrun.brief(case)
+                rep.case(str(b), {**b, "impl": im.get("kind") or im.get("exn") or im["v"]}, nontrivial=True)
+                rep.count(f"length_mismatch:impl_{im['v']}:{im.get('exn') or im.get('kind') or ''}")
+                rec = {"case": b, "impl": im, "model": mo}
+                if im["v"] in ("accept",):
+                    rep.violation({"what": "a tuple of another length than its hint was accepted (an annotated position without a value, or a value without a position)", **rec})
+                elif im["v"] != "identity" and not ctxrun.same_verdict(im, mo):
+                    rep.disagreement({"what": "model and implementation differ on a tuple of another length than its hint", **rec})
+                continue
             if im.get("detail", {}).get("__skipped__"):
                 rep.count("not_run_after_timeouts")
                 continue
